@@ -29,6 +29,12 @@ def main():
                 a -= set(other); b -= other
             elif op == 4 and rnd.random() < 0.2:
                 a.clear(); b.clear()
+            elif op == 7:
+                o2 = set(other)
+                assert sorted(a & o2) == sorted(b & LinearSet(other)) and sorted(a ^ o2) == sorted(b ^ other)
+                assert sorted(a.union(o2)) == sorted(b.union(other)) and sorted(a.difference(o2)) == sorted(b.difference(other))
+                assert a.issubset(o2) == b.issubset(other) and a.issuperset(o2) == b.issuperset(other) and a.isdisjoint(o2) == b.isdisjoint(other)
+                assert (a <= o2) == (b <= other) and (a >= o2) == (b >= other) and sorted(o2 - a) == sorted(other - b if False else (LinearSet(other) - b))
             elif op == 5:
                 assert (k in a) == (k in b)
             elif op == 6:
